@@ -5,6 +5,7 @@ import SwcVerif.Model.SwcText
 import SwcVerif.Model.Branches
 import SwcVerif.Model.Sort
 import SwcVerif.Model.Dsu
+import SwcVerif.Model.Subtree
 
 def dispatch (op : String) (args : List String) : String :=
   match op with
@@ -19,6 +20,7 @@ def dispatch (op : String) (args : List String) : String :=
   | "issorted" => SortM.handleIsSorted args
   | "dsu" => Dsu.handleDsu args
   | "hascyclic" | "bifurcate" | "singleroot" | "getdsu" | "somas" | "nearest" => Dsu.handleCheck op args
+  | "subtree" | "tosub" | "subtopo" | "cutenter" | "cutdepth" | "cutleave" | "cuttype" | "cutorder" | "cuttip" => Sub.handle op args
   | "swcline" => SwcText.handleLine args
   | "swcread" => SwcText.handleRead args
   | "swcwrite" => SwcText.handleWrite args
